@@ -1,0 +1,18 @@
+//go:build verif
+
+package transaction
+
+import (
+	proposalstore "github.com/onosproject/onos-config/pkg/store/v2/proposal"
+	transactionstore "github.com/onosproject/onos-config/pkg/store/v2/transaction"
+)
+
+func NewReconcilerForVerif(transactions transactionstore.Store, proposals proposalstore.Store) *Reconciler {
+	return &Reconciler{transactions: transactions, proposals: proposals}
+}
+func NewWatcherForVerif(transactions transactionstore.Store) *Watcher {
+	return &Watcher{transactions: transactions}
+}
+func NewProposalWatcherForVerif(proposals proposalstore.Store) *ProposalWatcher {
+	return &ProposalWatcher{proposals: proposals}
+}
